@@ -11,7 +11,9 @@
                    multi-megabyte executions only cfg.wirelen is recorded)
      cfg.runs[k] = [seg, recv (sequence of [t, key] read from the reader's queue), rerr]
                    rerr: 0 none | close code | 1 exception without a close code
-     events        chronological: [ev |-> "call" | "end", id, how]   how: returned|cancelled|raised
+     events        chronological: [ev |-> "call" | "end", id, how, mut]   how: returned|cancelled|raised
+                   mut: the payload object (bytes / bytearray / memoryview, possibly sent twice) no longer
+                   equals what the caller put in it (compared by the harness before and after each send)
 
    Phase 1  events        call/end discipline; no data frame accepted after close() returned
    Phase 2  wire          the WsFrames reference reader parses cfg.wire (one unit per step):
@@ -21,7 +23,7 @@
    Phase 3  every run     identical payloads, exactly once, per-sender order, no reader error,
                           frame k of the wire is message k of the reader
 
-   Clauses: CallProtocol, AcceptedAfterClose, WireInvalid:<rule>, WireFragmented, MaskBit,
+   Clauses: CallProtocol, CallerBufferMutated, AcceptedAfterClose, WireInvalid:<rule>, WireFragmented, MaskBit,
    LengthNotMinimal, Rsv1Unexpected, DeflateTailNotRemoved, SendFailed, CallNeverEnded, WireTruncated, ReaderError, PayloadCorrupted,
    UnknownMessage, Duplicate, PerSenderOrder, Lost, SentAlthoughRaised, FrameCountMismatch,
    WireTypeMismatch, WirePayloadMismatch,
@@ -70,6 +72,8 @@ EventStep ==
           LET m == Sent(tid)[e.id]
               clause == IF e.ev = "call" /\ status[e.id] # "none" THEN "CallProtocol"
                         ELSE IF e.ev = "end" /\ status[e.id] # "called" THEN "CallProtocol"
+                        \* the object handed to send_frame still holds what the caller put there
+                        ELSE IF e.mut THEN "CallerBufferMutated"
                         ELSE IF e.ev = "end" /\ e.how = "returned" /\ m.op \in {1, 2} /\ e.id \in late THEN "AcceptedAfterClose"
                         \* send_frame may refuse a message only once the connection is being closed
                         ELSE IF e.ev = "end" /\ e.how = "raised" /\ ~ccall THEN "SendFailed"
@@ -127,7 +131,12 @@ Assign(recv, k, ids) ==
                                               /\ \A j \in 1..Len(ids) : ids[j] # i}
              \* identical payloads: prefer a message whose send_frame was actually entered
              live == {i \in cands : status[i] \in {"returned", "cancelled"}}
-             pool == IF live # {} THEN live ELSE cands
+             pool0 == IF live # {} THEN live ELSE cands
+             \* ... and, a buffer may be sent twice, one that keeps its sender's messages in order
+             inOrder == {i \in pool0 : \A j \in 1..Len(ids) :
+                             (ids[j] # 0 /\ Sent(tid)[ids[j]].sender = Sent(tid)[i].sender)
+                                 => Sent(tid)[ids[j]].seq < Sent(tid)[i].seq}
+             pool == IF inOrder # {} THEN inOrder ELSE pool0
              pick == IF cands = {} THEN 0 ELSE CHOOSE i \in pool : \A j \in pool : i <= j
          IN Assign(recv, k + 1, Append(ids, pick))
 
